@@ -68,7 +68,8 @@ pub(crate) struct FrequencyCounter {
 
 impl FrequencyCounter {
     pub(crate) fn new(counters: TotalCounters) -> FrequencyCounter {
-        let total_counters = Self::next_power_2(counters);
+        // a row packs two 4-bit counters in a byte: the smallest sketch has two counters per row, else the rows are empty
+        let total_counters = Self::next_power_2(counters.max(2));
         info!("Initializing FrequencyCounter with total counters {}", counters);
         FrequencyCounter {
             matrix: Self::matrix(total_counters),
